@@ -724,12 +724,20 @@ fn handle_dead_child(sc: &dyn Scenario, tier: Tier, journal: &str, end: ChildEnd
         return 2;
     }
     // minimise with evaluation in subprocesses; a hanging case costs its CPU limit per evaluation
-    let (cpu, budget) = if is_hang { (2u64, 60usize) } else { (single_case_cpu_limit_s(), 400usize) };
+    // (a run that does not end is minimised under a smaller CPU limit than the 20 s of the batch —
+    // every candidate that still "hangs" costs that limit — and the limit becomes part of the replay
+    // file: replaying means "this case needs more than that much CPU", where a legitimate case of
+    // its size needs milliseconds)
+    let hang_replay_limit = 5u64;
+    let (cpu, budget) = if is_hang { (hang_replay_limit, 24usize) } else { (single_case_cpu_limit_s(), 400usize) };
     let ev = |x: &J| eval_in_subprocess(prop, x, cpu);
     let min = sc.minimise_ext(&case, &sig, &ev, budget);
     let fin = if ev(&min).iter().any(|v| v.sig == sig) { min } else { case.clone() };
     let mut body = fin.clone();
     body["violation"] = json!({"property": prop, "signature": sig, "detail": detail0});
+    if is_hang {
+        body["cpu_limit_s"] = json!(hang_replay_limit);
+    }
     let path = write_replay(prop, &body);
     let code = match replay_in_fresh_process(&path) {
         Ok(sigs) if sigs.iter().any(|s| *s == sig) => {
@@ -829,7 +837,13 @@ pub fn run_probe(args: &[String], scenarios: &[&dyn Scenario]) -> i32 {
 
 /// `dltsim replay <file>` as the user calls it: evaluate in a child; a child that dies is a violation.
 pub fn supervise_replay(path: &str) -> i32 {
-    let (end, _) = run_child(&["replay-child".into(), path.into()], &[], false, 20 * single_case_cpu_limit_s() + 120);
+    // a replay of a run that does not end carries the CPU limit under which it was confirmed
+    let limit = std::fs::read_to_string(path).ok().and_then(|s| serde_json::from_str::<J>(&s).ok()).and_then(|v| v["cpu_limit_s"].as_u64());
+    let envs: Vec<(&str, String)> = match limit {
+        Some(l) => vec![("DLTSIM_CPU_LIMIT", l.to_string())],
+        None => vec![],
+    };
+    let (end, _) = run_child(&["replay-child".into(), path.into()], &envs, false, 20 * single_case_cpu_limit_s() + 120);
     match end {
         ChildEnd::Exit(c) => c,
         e => {
